@@ -2,23 +2,23 @@
 (* Trace validation for C14 (hook H3): the path before the path-rewrite plugins, after  *)
 (* each of them, and the analysis of the same text without any such plugin.             *)
 (*  rules{rules}                   the configured plugins: [kind, pos, normalize]       *)
-(*  path{stage, i, nodes}          stage "best" | "rewrite" (i = plugin index)          *)
+(*  path{stage, i, nodes}          stage "best" | "rewrite" (i = plugin index) | "split" *)
 (*  noplugin{bounds}               boundaries of the same analysis without the plugins  *)
 EXTENDS PathRewrite, TraceIO
 
-VARIABLES l, rules, cur, best
+VARIABLES l, rules, cur, best, final
 Ev == Rec[l]
-tvars == <<l, rules, cur, best>>
-TInit == l = 1 /\ rules = <<>> /\ cur = <<>> /\ best = <<>>
+tvars == <<l, rules, cur, best, final>>
+TInit == l = 1 /\ rules = <<>> /\ cur = <<>> /\ best = <<>> /\ final = <<>>
 
 NodeOf(n) == [b |-> n.b, e |-> n.e, bb |-> n.bb, eb |-> n.eb, surface |-> n.surface, norm |-> n.norm, pos |-> n.pos,
               id |-> <<n.dic, n.word, n.dform, n.reading, n.total>>]
 PathOf(ns) == [i \in 1..Len(ns) |-> NodeOf(ns[i])]
 
-TrRules == /\ l <= NRec /\ Ev.ev = "rules" /\ rules' = Ev.rules /\ cur' = <<>> /\ best' = <<>> /\ l' = l + 1
+TrRules == /\ l <= NRec /\ Ev.ev = "rules" /\ rules' = Ev.rules /\ cur' = <<>> /\ best' = <<>> /\ final' = <<>> /\ l' = l + 1
 
 TrBest == /\ l <= NRec /\ Ev.ev = "path" /\ Ev.stage = "best"
-          /\ cur' = PathOf(Ev.nodes) /\ best' = PathOf(Ev.nodes)
+          /\ cur' = PathOf(Ev.nodes) /\ best' = PathOf(Ev.nodes) /\ final' = <<>>
           /\ l' = l + 1 /\ UNCHANGED rules
 
 \* after plugin i the path is a merge of the path before it
@@ -26,15 +26,24 @@ TrRewrite == /\ l <= NRec /\ Ev.ev = "path" /\ Ev.stage = "rewrite"
              /\ Ev.i + 1 <= Len(rules)
              /\ IsMerge(cur, PathOf(Ev.nodes), rules[Ev.i + 1])
              /\ cur' = PathOf(Ev.nodes)
-             /\ l' = l + 1 /\ UNCHANGED <<rules, best>>
+             /\ l' = l + 1 /\ UNCHANGED <<rules, best, final>>
+
+\* the A/B split that follows the plugins: "never moved, split or dropped" - a token made by a merge has no
+\* declared units and is reported as it was merged, whatever the first merged token declared
+Joined(n) == ~\E i \in 1..Len(best) : best[i].b = n.b /\ best[i].e = n.e
+TrSplit == /\ l <= NRec /\ Ev.ev = "path" /\ Ev.stage = "split"
+           /\ LET q == PathOf(Ev.nodes) IN
+              /\ \A i \in 1..Len(cur) : Joined(cur[i]) => \E j \in 1..Len(q) : q[j] = cur[i]
+              /\ final' = q
+           /\ l' = l + 1 /\ UNCHANGED <<rules, cur, best>>
 
 \* "the token boundaries are a subset of the boundaries obtained with those plugins disabled"
 Bounds(p) == { p[i].b : i \in 1..Len(p) } \cup { p[i].e : i \in 1..Len(p) }
 TrNoPlugin == /\ l <= NRec /\ Ev.ev = "noplugin"
-              /\ Bounds(cur) \subseteq SeqToSet(Ev.bounds)
-              /\ Bounds(best) = SeqToSet(Ev.bounds)
-              /\ l' = l + 1 /\ UNCHANGED <<rules, cur, best>>
+              /\ Bounds(final) \subseteq SeqToSet(Ev.bounds)                 \* the reported tokens, in the mode of the analysis
+              /\ Ev.mode = 2 => (Bounds(cur) \subseteq SeqToSet(Ev.bounds) /\ Bounds(best) = SeqToSet(Ev.bounds))
+              /\ l' = l + 1 /\ UNCHANGED <<rules, cur, best, final>>
 
-TNext == TrRules \/ TrBest \/ TrRewrite \/ TrNoPlugin
+TNext == TrRules \/ TrBest \/ TrRewrite \/ TrSplit \/ TrNoPlugin
 TSpec == TInit /\ [][TNext]_tvars
 =============================================================================
